@@ -496,6 +496,13 @@ pub fn record(seed: u64, n: usize, trace: &mut dyn io::Write, out: &mut dyn io::
             let inject = rng.random_bool(0.5);
             emit(one_case(&format!("mt{seed}-{c}-{tag}"), &format!("chain-{}", kind.name()), "axfr", &plan, inject, &mut rng));
         }
+        // (h) the LAST message of a chain arrives with its TSIG record removed.  RFC 8945 5.3.1 lets a
+        // client take unsigned messages in the middle of a stream provisionally (they enter the next
+        // digest), but the final message must be signed: at this position every conformant client refuses
+        let len = 2 + rng.random_range(0..3usize);
+        let mut plan = vec![Kind::Genuine; len];
+        plan[len - 1] = Kind::Unsigned;
+        emit(one_case(&format!("mt{seed}-{c}-h"), "chain-unsigned-last", "axfr", &plan, false, &mut rng));
     }
 }
 
